@@ -130,7 +130,13 @@ func TryCreateRLockFile(filePath string) (controlFile *ControlFile, err error) {
 	}
 	lockFile := NewControlFile(lockFilePath, lfp)
 	defer func() {
-		err = NewCompositeError(err, lockFile.Close())
+		if cerrs := lockFile.CloseWithErrors(); cerrs != nil {
+			if controlFile != nil {
+				cerrs = append(cerrs, controlFile.CloseWithErrors()...)
+				controlFile = nil
+			}
+			err = NewCompositeError(err, NewForcedUnlockError(cerrs))
+		}
 	}()
 
 	rlockFilePath := RLockFilePath(filePath)
